@@ -29,7 +29,7 @@ def main():
         ok = False
     # 3. Go harness binaries
     if ctx.gen_gomod():
-        rc, out = vcheck.sh(["go", "build", "-tags", "verif", "./..."], cwd=vcheck.HARNESS, env=vcheck.GOENV, timeout=3600)
+        rc, out = vcheck.sh(["go", "build", "-modfile=" + os.path.join(ctx.moddir, "go.mod"), "-tags", "verif", "./..."], cwd=vcheck.HARNESS, env=vcheck.GOENV, timeout=3600)
         print("go build harness rc=%d" % rc)
         if rc != 0:
             print(out[-6000:])
